@@ -52,6 +52,15 @@ CHECKS = {
     "C20": dict(text='Fault-injecting bounded model checking: each of the seven kinds of user callable raises at a symbolic call index an exception of a symbolic type (the types the package catches plus controls); the very exception object must escape minimize_lbfgsb and a fault-free call afterwards must equal the one before; no module-level state changes.',
                 note='Trusted: symx shim, the kernel contracts used as functional stubs [C08/C09/C11], z3. Decided modulo those contracts with n=1; scenarios of all counterexamples are replayed on the real public API over a battery of concrete problems.',
                 tech='fault-injecting DSE (symbolic call index and exception type); scenario replay of every kind x type x index on the real API', ref='DESIGN.md C20'),
+    "C02": dict(text="Bit-precise bounded model checking (z3 QF_FP, IEEE binary64): the real clip2bounds, line_search (DCSRCH tail cut) with main.py's iterate-update statements, subspace_minimization (thorough: get_cauchy_point), n=1 (thorough 2), empty memory: every point produced satisfies lb <= p <= ub with exact float comparisons for ALL finite inputs in range; plus the exact-real run-level exploration that every point handed to the user's callables, reported and returned is in the box and fixed components never move.",
+                note="Trusted: symx shim in IEEE mode (each operation is the z3 FP operation with RNE; validated by replaying witnesses and every counterexample on the real kernels), z3's FP theory. Undecided queries are retried on a term-depth abstraction / cone-of-influence slice (sound for unsat). Memory m>=1 in float64 (BLAS, Cholesky) is not bit-modelled.",
+                tech='DSE over the real source with IEEE-754 binary64 terms (z3 QF_FP) + abstraction/slicing; run-level part as C04', ref='DESIGN.md C02'),
+    "C15": dict(text='Bounded model checking of the real ScalarFunction/prepare_scalar_function over every history of up to 4 (callable) / 3 (finite-difference modes) operations from {fun, grad, fun_and_grad, caller mutates the array it passed, scaling factor changed} with symbolic points (aliasing decided by the solver): answers are fresh evaluations times the current factor, counters equal calls, no re-evaluation at the cached point.',
+                note='Trusted: symx shim, approx_derivative stub (evaluates the wrapped objective at n/2n stencil points, returns an uninterpreted gradient), z3.',
+                tech='DSE with uninterpreted user functions (Ackermann) over all operation histories up to the bound', ref='DESIGN.md C15'),
+    "C16": dict(text="What this package contributes to the finite-difference modes: (1) bit-precise (QF_FP) proof that the iterate handed to the differencing routine and every trial point are inside the box exactly, so SciPy's bound check cannot raise; (2) method / step / bounds / base value f(x) passed through to approx_derivative and nfev counting stencil evaluations, at wrapper level for all histories and at run level (fresh, two iterations, with scaler).",
+                note="Trusted: as C02 and C15. SciPy's differencing accuracy and its stencil adjustment at the bounds are assumed by contract; 'matches the exact-gradient solution to the accuracy of the scheme' is not decided.",
+                tech='QF_FP DSE for the at-the-bound part; DSE with a recording approx_derivative stub for the plumbing', ref='DESIGN.md C16'),
 }
 
 
